@@ -746,7 +746,12 @@ def main():
             failed_fns.add(fnk)
     kani_ob = kani_res['obligations'] if kani_res else 0
     kani_ok = kani_res['discharged'] if kani_res else 0
-    obligations = nclauses + len(proved_here) + kani_ob
+    # labelled obligations stated in proof blocks (hint sections) are not among the counted clauses: one that FAILS (a known
+    # finding, or a violation) is counted as an obligation that is not discharged
+    hint_fails = set(name for (name, site), (u, f) in fails
+                     if f['clause'] and f['clause'].get('k') == 'contract' and f['clause'].get('label')
+                     and not (f['clause'].get('section') == 'sig' or f['clause'].get('section', '').startswith('loop')))
+    obligations = nclauses + len(proved_here) + kani_ob + len(hint_fails)
     discharged = (nclauses - len(failed_clause_keys)) + len([f for f in proved_here if f['fn'] not in failed_fns]) + kani_ok
     if undecided:
         discharged = 0
